@@ -155,6 +155,22 @@ pub fn at_pause_end(sh: &Shadow, live: &HashSet<u64>) {
             }
         }
         drop(boxed);
+        // addresses that differ from a live object's address only in high bits (an index computed
+        // from an address must not wrap around the space table)
+        for id in picked.iter().take(12) {
+            let a = sh.objs[id].addr;
+            for k in [1usize << 46, 2usize << 46, 3usize << 46, 1usize << 47, 1usize << 52, 1usize << 62] {
+                let x = a.wrapping_add(k) & !7;
+                if x == 0 || (x >= hs && x < he) {
+                    continue;
+                }
+                let Some(r) = resolve(x, "high-bits-alias") else { continue };
+                t.outside += 1;
+                if r.name != "empty" || r.in_spaces {
+                    violation("C31", "outside-address-resolves-to-a-space:high-bits-alias", format!("address {:#x} = live object address {:#x} + {:#x} is outside the MMTk heap but the SFT says {:?}, is_in_mmtk_spaces = {}", x, a, k, r.name, r.in_spaces));
+                }
+            }
+        }
         // ---- 4. freed memory and random heap addresses: the mechanisms must agree -------------------
         // start addresses of objects found dead at earlier pauses: their memory may have been
         // released (chunks freed under a discontiguous layout), reused, or still belong to the space
